@@ -53,7 +53,38 @@ class Observer(BaseComponent):
         w.log.append(('obs', name, eid if eid is not None else par, extra))
 
 
+class OrderedTasks(set):
+    """Drop-in for Manager._tasks: a set whose copy() (what tick() iterates) is in insertion order, or reversed.
+    The stock set orders task tuples by object address, i.e. differently on every run; the explorer owns the order."""
+
+    def __init__(self, reverse=False):
+        super().__init__()
+        self._order = {}
+        self._reverse = reverse
+
+    def add(self, x):
+        if x not in self:
+            self._order[x] = None
+            super().add(x)
+
+    def remove(self, x):
+        super().remove(x)
+        del self._order[x]
+
+    def discard(self, x):
+        if x in self:
+            self.remove(x)
+
+    def copy(self):
+        lst = list(self._order)
+        if self._reverse:
+            lst.reverse()
+        return lst
+
+
 class World:
+    task_order_reversed = False
+
     def __init__(self, handlers, root_cls=BaseComponent):
         """handlers: list of (hid, event type name, priority, script, opts) ; opts: {'channel':..}"""
         self.log = []
@@ -63,6 +94,8 @@ class World:
         self.depth = 0
         self.maxdepth = 0
         self.root = root_cls()
+        if isinstance(getattr(self.root, '_tasks', None), set):
+            self.root._tasks = OrderedTasks(self.task_order_reversed)
         self.obs = Observer()
         self.obs.world = self
         self.obs.register(self.root)
@@ -74,6 +107,14 @@ class World:
         while len(self.root):
             self.root.flush()   # 'registered' events
         del self.log[:]
+
+    value_by_eid = False
+
+    def val(self, v, eid):
+        """results of different event instances are made distinguishable (mix-ups between in-flight calls)"""
+        if self.value_by_eid and isinstance(v, int) and eid is not None:
+            return v + 1000 * eid
+        return v
 
     # -- events -------------------------------------------------------------------------------
     def new_event(self, typ, opts=None, by=None, by_hid=None):
@@ -87,6 +128,7 @@ class World:
         if opts.get('success_channels'):
             e.success_channels = tuple(opts['success_channels'])
         e.gparent = by
+        e.ginst = sum(1 for x in self.events.values() if x.name == typ) - 1
         self.log.append(('fire', e.eid, typ, by, by_hid))
         return e
 
@@ -114,11 +156,18 @@ class World:
                 for st in steps:
                     op = st[0]
                     if op == 'y':
-                        if st[1] is not None:
-                            w.log.append(('val', hid, eid, st[1]))
+                        v = w.val(st[1], eid)
+                        if v is not None:
+                            w.log.append(('val', hid, eid, v))
                         n += 1
-                        yield st[1]
+                        yield v
                         w.log.append(('step', hid, eid, n))
+                    elif op == 'yvar':
+                        # number of empty yields depends on which instance of the event type this is
+                        for _ in range(st[1][getattr(event, 'ginst', 0) % len(st[1])]):
+                            n += 1
+                            yield None
+                            w.log.append(('step', hid, eid, n))
                     elif op == 'raise':
                         w.log.append(('val', hid, eid, 'ERR'))
                         w.log.append(('exit', hid, eid, 'raise'))
@@ -150,6 +199,17 @@ class World:
                             w.log.append(('resumed', hid, eid, ev.eid, snap(x), bool(getattr(x, 'errors', None))))
                         except Exception as exc:
                             w.log.append(('resumed', hid, eid, ev.eid, 'EXC:' + type(exc).__name__, None))
+                    elif op == 'waitn_never':
+                        opts = st[2] if len(st) > 2 else {}
+                        w.log.append(('suspend', hid, eid, -1, op))
+                        kw = {}
+                        if 'timeout' in opts:
+                            kw['timeout'] = opts['timeout']
+                        try:
+                            x = yield self.wait(st[1], **kw)
+                            w.log.append(('resumed', hid, eid, -1, snap(x), bool(getattr(x, 'errors', None))))
+                        except Exception as exc:
+                            w.log.append(('resumed', hid, eid, -1, 'EXC:' + type(exc).__name__, None))
                     elif op == 'stop':
                         event.stop()
                     elif op == 'mstop':
@@ -181,10 +241,11 @@ class World:
                             w.log.append(('exit', hid, eid, 'raise'))
                             raise Boom(hid)
                         elif op == 'ret':
-                            if st[1] is not None:
-                                w.log.append(('val', hid, eid, st[1]))
+                            v = w.val(st[1], eid)
+                            if v is not None:
+                                w.log.append(('val', hid, eid, v))
                             w.log.append(('exit', hid, eid, 'ret'))
-                            return st[1]
+                            return v
                         elif op == 'mstop':
                             w.log.append(('stopcall', hid, eid, st[1]))
                             self.stop(st[1]) if st[1] is not None else self.stop()
